@@ -124,7 +124,17 @@ def word_faithful(text, value, dp):
         exact = Fraction(int(value))
     else:
         exact = Fraction(float(value))
-    if abs(w - exact) <= U:
+    # a floating-point value stands for every real within half an ulp of it IN
+    # ITS OWN DTYPE (a printer working from the shortest decimal that denotes
+    # the float32 7.5e-05 rounds "0.000075", not 0.0000749999981...)
+    half_ulp = Fraction(0)
+    if isinstance(value, np.floating):
+        sp = float(np.spacing(np.abs(value)))
+        if math.isfinite(sp):
+            half_ulp = Fraction(sp) / 2
+    elif isinstance(value, float):
+        half_ulp = Fraction(math.ulp(value)) / 2
+    if abs(w - exact) <= U + half_ulp:
         return True
     try:
         if isinstance(value, np.floating):
@@ -150,6 +160,8 @@ def apply_call(g, call):
         return None
     if op == "aborted_path":
         return aborted_path(g, call)
+    if op == "box_excluding_position":
+        return box_excluding_position(g, call)
     args = list(call.get("args", ()))
     kw = dict(call.get("kw", {}))
     target = g
@@ -158,6 +170,24 @@ def apply_call(g, call):
     elif op.startswith("transform."):
         target, op = g.transform, op[10:]
     return getattr(target, op)(*args, **kw)
+
+
+def box_excluding_position(g, call):
+    """Set an axes box so that the CURRENT position lies outside it on axis
+    call['axis'] (limits tightened while the head is parked outside): every
+    later command that keeps that axis where it is targets a point outside."""
+    p0 = [0.0 if c is None else float(c) for c in g.position]
+    lo = [c - 50.0 for c in p0]
+    hi = [c + 50.0 for c in p0]
+    k = call["axis"]
+    if call.get("below"):
+        hi[k] = p0[k] - call["gap"]
+        lo[k] = hi[k] - call["w"]
+    else:
+        lo[k] = p0[k] + call["gap"]
+        hi[k] = lo[k] + call["w"]
+    g.set_bounds("axes", lo, hi)
+    return None
 
 
 class _Abort(Exception):
@@ -169,6 +199,11 @@ def aborted_path(g, call):
     number call['after'] + 1 (a limit violation would do the same).  Whatever
     was emitted before stays emitted; the failure itself is swallowed, and
     the builder must go on working normally afterwards."""
+    pos = g.position.resolve()
+    if max(abs(float(c)) for c in pos) > 1e4:
+        # far from the origin the tracer's sampling cost explodes (see
+        # hist.SHAPE_POS_LIMIT): no shape is issued there
+        return None
     n = {"k": 0}
 
     def hook(origin, target, params, state):
